@@ -7,6 +7,7 @@ package pubsub
 
 import (
 	"fmt"
+	"strings"
 	"sync"
 	"time"
 
@@ -57,9 +58,17 @@ func genC16(seed uint64, tier string) *Plan {
 	}
 	nt := p.ki("ntopics", 1)
 	add := func(op string, a ...int64) { p.Items = append(p.Items, Item{Op: op, A: a}) }
-	add("node-sub", 0)
-	if nt > 1 {
-		add("node-sub", 1)
+	// one run in five: the node only PUBLISHES to its last topic (no subscription), so that peers
+	// of that topic sit in the router's fanout set and not in a mesh
+	fanT := -1
+	if r.chance(0.2) {
+		fanT = nt - 1
+		p.Knobs["fanout_topic"] = float64(fanT)
+	}
+	for t := 0; t < nt; t++ {
+		if t != fanT {
+			add("node-sub", int64(t))
+		}
 	}
 	np := r.rng(2, 5)
 	early := r.chance(0.15) // blacklist the target before it ever connects
@@ -117,6 +126,10 @@ func genC16(seed uint64, tier string) *Plan {
 		case x < 74:
 			add("adv", int64(r.rng(10, 1500)))
 		case x < 80 && !done:
+			if fanT >= 0 && r.chance(0.7) {
+				add("node-pub", int64(fanT), int64(r.rng(8, 60)))
+				add("adv", int64(r.rng(1, 3000)))
+			}
 			switch y := r.intn(10); {
 			case y < 2:
 				// a backlog behind a stalled link at the moment of the call
@@ -131,6 +144,17 @@ func genC16(seed uint64, tier string) *Plan {
 				add("bl", 1, 1)
 				add("stall", 1, 0)
 				add("adv", int64(r.rng(1, 50)))
+			case y < 6 && y >= 4:
+				// messages of a clean peer and of the target leave validation while the event loop is
+				// busy; the blacklist gains the target before the loop takes them
+				for j := r.rng(2, 5); j > 0; j-- {
+					if r.chance(0.5) {
+						add("pub", 1, t, int64(r.rng(8, 80)))
+					} else {
+						add("pub", int64([]int{0, 2, 3}[r.intn(3)]%np), t, int64(r.rng(8, 80)))
+					}
+				}
+				add("bl", 1, 0, 1)
 			case y < 4:
 				// first through the implementation, then through the API
 				add("bl", 1, 0)
@@ -159,6 +183,9 @@ func genC16(seed uint64, tier string) *Plan {
 		}
 	}
 	if !done {
+		if fanT >= 0 {
+			add("node-pub", int64(fanT), 20)
+		}
 		add("bl", 1, int64(r.intn(2)))
 		add("pub", 1, 0, 20)
 		add("fwd", 0, 0, 20, 1)
@@ -220,6 +247,20 @@ func runC16(s *sim) {
 		}
 		return true
 	}
+	armed := false
+	defer func() { verifYieldFn = nil }()
+	verifYieldFn = func(point int) {
+		if point != verifLoopRequest {
+			return
+		}
+		s.mu.Lock()
+		a := armed
+		armed = false
+		s.mu.Unlock()
+		if a {
+			s.park("loop-request", nil, nil, nil)
+		}
+	}
 	w.extraOps["bl"] = func(it Item) {
 		if T >= 0 && (viaAPI || it.a(1) != 1 || !active()) {
 			return
@@ -227,6 +268,57 @@ func runC16(s *sim) {
 		second := T >= 0 // BlacklistPeer on a peer that the implementation already contains
 		target = w.fake(1)
 		stalledAtT := target != nil && target.stalledNow()
+		burst := it.a(2) == 1 && it.a(1) != 1 && !second
+		fanoutBefore := map[peer.ID]bool{}
+		if gs := w.n.gs(); gs != nil {
+			for _, m := range gs.fanout {
+				for q := range m {
+					fanoutBefore[q] = true
+				}
+			}
+		}
+		if burst {
+			// keep the event loop busy (parked between receiving a request and handling it) while
+			// every message still in validation completes and queues up for the loop
+			s.mu.Lock()
+			armed = true
+			s.mu.Unlock()
+			s.spawn("GetTopics (keeps the loop busy)", func() any { return len(w.n.ps.GetTopics()) })
+			s.settle()
+			s.mu.Lock()
+			armed = false
+			s.mu.Unlock()
+			n := 0
+			for round := 0; round < 1024; round++ {
+				var g []*gate
+				for _, x := range s.parkedGates() {
+					if !strings.HasPrefix(x.id, "loop-request") {
+						g = append(g, x)
+					}
+				}
+				if len(g) == 0 {
+					break
+				}
+				for _, x := range g {
+					s.release(x, 0)
+					s.settle()
+					n++
+				}
+			}
+			if n >= 2 {
+				s.probe("bl_with_validated_messages_waiting_for_loop")
+			}
+		}
+		defer func() {
+			if burst {
+				for _, x := range s.parkedGates() {
+					if strings.HasPrefix(x.id, "loop-request") {
+						s.release(x, 0)
+					}
+				}
+				s.settle()
+			}
+		}()
 		if it.a(1) == 1 {
 			viaAPI = true
 			s.do("BlacklistPeer target", func() any { w.n.ps.BlacklistPeer(tid); return nil })
@@ -282,6 +374,9 @@ func runC16(s *sim) {
 					s.probe("bl_while_in_mesh")
 				}
 			}
+		}
+		if gs := w.n.gs(); gs != nil && fanoutBefore[tid] {
+			s.probe("bl_while_in_fanout")
 		}
 		if viaAPI {
 			// at that moment: queue closed, absent from peer lists, mesh and fanout
